@@ -74,9 +74,15 @@ func (db *Database) SearchWithPipelineOptions(query string, options SearchOption
 
 	queryWords := strings.Fields(strings.ToLower(query))
 	results := make([]SearchResult, 0, utils.Min(len(db.Commands), options.Limit*constants.ResultsBufferMultiplier))
+	currentPlatform := getCurrentPlatform()
 
 	for i := range db.Commands {
 		cmd := &db.Commands[i]
+
+		// Same platform filter as every other search path
+		if !platformAllowed(cmd, options, currentPlatform) {
+			continue
+		}
 
 		// If PipelineOnly is true, skip non-pipeline commands
 		if options.PipelineOnly && !isPipelineCommand(cmd) {
